@@ -44,3 +44,64 @@ pub fn reset_counters() {
 
 /// Byte written over the value part of a quarantined block
 pub const POISON: u8 = 0xDE;
+
+// ---- H3: heap ownership and a reachability visitor ------------------------------------------
+
+static NEXT_OWNER: AtomicU64 = AtomicU64::new(1);
+
+pub fn next_owner_id() -> u64 {
+    NEXT_OWNER.fetch_add(1, Ordering::Relaxed)
+}
+
+/// What a walk over everything reachable from a thread's roots found
+#[derive(Debug, Default, Clone)]
+pub struct WalkReport {
+    /// number of distinct objects reached
+    pub reached: usize,
+    /// (address, owner id) of every distinct object reached
+    pub objects: Vec<(usize, u64)>,
+    /// addresses of reached objects which had already been swept (dangling pointers)
+    pub freed: Vec<usize>,
+}
+
+struct Walk {
+    seen: std::collections::HashSet<usize>,
+    report: WalkReport,
+}
+
+thread_local! {
+    static WALK: std::cell::RefCell<Option<Walk>> = std::cell::RefCell::new(None);
+}
+
+/// Called by `Gc::mark`. `None` when no walk is active on this OS thread, otherwise whether the
+/// object was reached before (then it must not be traversed again)
+pub fn visit(addr: usize, owner: u64, freed: bool) -> Option<bool> {
+    WALK.with(|w| {
+        let mut w = w.borrow_mut();
+        let w = w.as_mut()?;
+        if !w.seen.insert(addr) {
+            return Some(true);
+        }
+        w.report.reached += 1;
+        w.report.objects.push((addr, owner));
+        if freed {
+            w.report.freed.push(addr);
+            // do not look inside a swept (poisoned) object
+            return Some(true);
+        }
+        Some(false)
+    })
+}
+
+pub fn begin_walk() {
+    WALK.with(|w| {
+        *w.borrow_mut() = Some(Walk {
+            seen: Default::default(),
+            report: Default::default(),
+        })
+    });
+}
+
+pub fn end_walk() -> WalkReport {
+    WALK.with(|w| w.borrow_mut().take().map(|w| w.report).unwrap_or_default())
+}
